@@ -439,8 +439,16 @@ int fiber_manager_wake_from_mpsc_queue(fiber_manager_t* manager,
       wake_count += 1;
     } else if (count > 0) {
       manager->wake_mpsc_spin_count += 1;
-      fiber_manager_yield(manager);
-      manager = fiber_manager_get();
+      if (manager->current_fiber == manager->maintenance_fiber) {
+        // we are the thread's maintenance fiber (running a deferred unlock):
+        // it must never yield with state RUNNING, or it is queued like an
+        // ordinary fiber and another thread can steal this thread's idle loop.
+        // the waiter we are waiting for is about to enqueue on another thread.
+        cpu_relax();
+      } else {
+        fiber_manager_yield(manager);
+        manager = fiber_manager_get();
+      }
     }
   } while (wake_count < count);
   return wake_count;
